@@ -247,3 +247,132 @@ modulo_counter.isinstance_hook = lib.std_isinstance
 modulo_counter.assumptions = ["real % is modelled by an integer floor quotient FDIV with 0 <= t - M*FDIV(t,M) < M (M > 0); negative moduli are not covered by the proof (bounded stand-in only)",
                               "a stream-valued modulo is constant valued"]
 
+
+
+# ---------------------------------------------------------------------------
+# TableLookup.__getitem__ / __call__: cyclic linear interpolation of the table
+from pyvc import sym as _sym
+
+
+def _tbl_obj(m, name):
+    tbl = m.new_list(Real, arr=z3.Const("tbl", z3.ArraySort(INT, REAL)), length=z3.Int("N"))
+    m.assume(z3.Int("N") >= 1)
+    return m.new_obj("TableLookup", {"table": tbl, "_table": tbl, "_len": z3.Int("N"), "cycles": z3.Real("cycles")})
+
+
+def _tl_len(m, args, kw):
+    (v,) = args
+    if isinstance(v, _sym.Ref) and v.kind == "obj" and v.elem == "TableLookup":
+        return m.heap[(v.id, "_len")]       # TableLookup.__len__ returns self._len, set by the table setter to len(table)
+    return _sym.BUILTINS["len"](m, args, kw)
+
+
+def _ceil(m, args, kw):
+    (v,) = args
+    if isinstance(v, (int, float)):
+        import math
+        return math.ceil(v)
+    return -z3.ToInt(-_sym.to_real(v))
+
+
+_tl_len._pyvc_callee = _ceil._pyvc_callee = True
+
+
+def _TBL(m, node):
+    j = _sym.to_z3num(m.eval(node.args[0]))
+    return m.heap[(m.heap[(m.params0["self"].id, "table")].id, "arr")][j]
+
+
+def _NN(m, node):
+    return m.heap[(m.params0["self"].id, "_len")]
+
+
+def _PYMOD(m, node):
+    return _sym.py_mod_int(_sym.to_z3num(m.eval(node.args[0])), _sym.to_z3num(m.eval(node.args[1])))
+
+
+_TBL._pyvc_spec = _NN._pyvc_spec = _PYMOD._pyvc_spec = True
+# cyclic successor / reduction of an index j in [0, 2N): the spec avoids z3's nonlinear mod; theorem below ties CYC to mod
+_TENV = {"TBL": _TBL, "NN": _NN, "PYMOD": _PYMOD,
+         "INTERPM": SpecLambda("lambda t: TBL(PYMOD(FL(t), NN())) * (1 - (t - FL(t))) + TBL(PYMOD(FL(t) + 1, NN())) * (t - FL(t))"), "FL": SpecLambda("lambda t: TRUNC(t)"),
+         "CYC": SpecLambda("lambda j: ite(j >= NN(), j - NN(), j)"),
+         "INTERP": SpecLambda("lambda t: TBL(CYC(FL(t))) * (1 - (t - FL(t))) + TBL(CYC(FL(t) + 1)) * (t - FL(t))")}
+table_getitem = Contract(
+    name="TableLookup.__getitem__", qual="audiolazy/lazy_synth.py::TableLookup.__getitem__", kind="function", props=["C19"],
+    modes={"0<=idx<len": Mode(params=dict(self=_tbl_obj, idx=Real), requires=["idx >= 0", "idx < NN()"],
+                              ensures=[("S:cyclic-linear-interpolation-of-the-table", "result == INTERP(idx)")]),
+           "idx>=0": Mode(params=dict(self=_tbl_obj, idx=Real), requires=["idx >= 0"],
+                          ensures=[("S:cyclic-linear-interpolation-of-the-table(indices-mod-len)", "result == INTERPM(idx)")])},
+    theorems=[("C:CYC-is-mod-len-on-[0,2len)", "forall(lambda j: implies(0 <= j and j < 2 * NN(), CYC(j) == PYMOD(j, NN())))")],
+    spec_env=_TENV, globs={"len": _tl_len, "ceil": _ceil}, default_elem=Real, replay="oracles.bounded_adapter:c19",
+    stated=["TableLookup[idx] is the cyclic linear interpolation of its table (indices within one period)"])
+
+
+# __call__: Stream(<interpolation of the table at idx> for idx in modulo_counter(part, float(len), step)).
+# The callee is used through its contract (modulo_counter above, mode start=number,modulo=number,step=number):
+# element k lies in [0, modulo) and equals start + k*step - modulo*J(k) for an integer J(k).
+_MCJ = z3.Function("MCJ", INT, INT)
+
+
+def _mc_model(m, args, kw):
+    names = ["start", "modulo", "step"]
+    bound = dict(zip(names, args))
+    for k_, v_ in kw.items():
+        if k_ in bound or k_ not in names:
+            raise _sym.Unsupported("modulo_counter call shape")
+        bound[k_] = v_
+    if len(bound) != 3:
+        raise _sym.Unsupported("modulo_counter defaults")
+    start, modulo, step = (_sym.to_real(bound[n_]) for n_ in names)
+    m.oblige("callee/modulo_counter/requires-modulo>0", modulo > 0)
+    A = z3.Const("MC", z3.ArraySort(INT, REAL))
+    it = m.new_iter(Real, "mc", finite=False, arr=A)
+    k = z3.Int("k!mc")
+    m.assume(z3.ForAll([k], z3.Implies(k >= 0, z3.And(A[k] >= 0, A[k] < modulo, A[k] == start + z3.ToReal(k) * step - modulo * z3.ToReal(_MCJ(k))))))
+    m.ghost["mc_start"], m.ghost["mc_modulo"], m.ghost["mc_step"] = start, modulo, step
+    return it
+
+
+_mc_model._pyvc_callee = True
+_PI = z3.Real("PI_C")
+_TENV2 = dict(_TENV, MCJ=UFn(_MCJ, 1), pi=_PI, CL=SpecLambda("lambda: NN() / (self.cycles * 2 * pi)"))
+table_call = Contract(
+    name="TableLookup.__call__", qual="audiolazy/lazy_synth.py::TableLookup.__call__", kind="function", props=["C19", "C02"],
+    modes={"freq,phase numbers": Mode(params=dict(self=_tbl_obj, freq=Real, phase=Real), requires=["self.cycles != 0"])},
+    axioms=[("pi", "pi > 3 and pi < 4")],
+    ensures=[("C:returns-a-Stream-of-the-verified-generator", "is_stream(result) and gen_label(data_of(result)) == 'g1' and same(src_of(data_of(result)), tbl_iter)"),
+             ("C:on-top-of-modulo_counter(phase*L, len, freq*L)", "mc_start == CL() * phase and mc_modulo == NN() and mc_step == CL() * freq")],
+    comps={1: Comp(elem=Real, ensures=[("S:endless", "False")])},
+    loops={1: Loop(inv=[("C:count", "nout == pos(tbl_iter)")])},
+    yields={"g1": Yield(post=[
+        ("S:cyclic-linear-interpolation-of-the-table-at-the-counter", "result == INTERP(tbl_iter[k])"),
+        ("S:position-is-phase+k*freq-in-table-units-reduced-into-[0,len)",
+         "0 <= tbl_iter[k] and tbl_iter[k] < NN() and tbl_iter[k] == CL() * phase + k * (CL() * freq) - NN() * MCJ(k)"),
+        ("C02:reads-k+1", "reads(tbl_iter) == k + 1")])},
+    spec_env=_TENV2, globs=dict(G, len=_tl_len, ceil=_ceil, pi=_PI, modulo_counter=_mc_model), callees=lib.STD_CALLEES, default_elem=Real,
+    replay="oracles.bounded_adapter:c19",
+    stated=["a TableLookup oscillator is the cyclic linear interpolation of its table, at the position phase + k*freq (in table units) reduced into [0, len) by modulo_counter"])
+table_call.frozen = ["tbl"]
+table_call.assumptions = ["rely: nobody modifies the table list while the oscillator stream is being consumed",
+                          "modulo_counter is used through its contract (proved above for number arguments, modulo > 0)",
+                          "pi is a real constant with 3 < pi < 4; float(n) is the real number n"]
+
+
+# ---------------------------------------------------------------------------
+# sinusoid(freq, phase): sin(phase + k*freq), computed as sin of modulo_counter(phase, 2*pi, freq)
+_SINF = z3.Function("SINF", REAL, REAL)
+sinusoid = Contract(
+    name="sinusoid", qual="audiolazy/lazy_synth.py::sinusoid", kind="generator", props=["C19", "C02"],
+    modes={"freq,phase numbers": Mode(params=dict(freq=Real, phase=Real), ensures=[("S:endless-never-ends", "False")])},
+    axioms=[("pi", "pi > 3 and pi < 4")],
+    loops={1: Loop(inv=[("C:count", "nout == pos(_it1)")])},
+    yields={1: Yield(
+        instances=[("sin-has-period-2pi", "sin(phase + k * freq - 2 * pi * MCJ(k)) == sin(phase + k * freq)")],
+        post=[("S:sin(phase+k*freq)", "result == sin(phase + k * freq)"),
+              ("C:on-top-of-modulo_counter(phase, 2*pi, freq)", "mc_start == phase and mc_modulo == 2 * pi and mc_step == freq")])},
+    spec_env={"sin": UFn(_SINF, 1), "pi": _PI, "MCJ": UFn(_MCJ, 1)},
+    globs=dict(G, sin=UFn(_SINF, 1), pi=_PI, modulo_counter=_mc_model), default_elem=Real, replay="oracles.bounded_adapter:c19",
+    stated=["sinusoid is sin(phase + n*freq)"])
+sinusoid.ghost_const = {"mc_start", "mc_modulo", "mc_step"}
+sinusoid.assumptions = ["sin is an uninterpreted real function with sin(x - 2*pi*j) == sin(x) for integer j (instantiated at every yield for the counter's j)",
+                        "modulo_counter is used through its contract (proved above for number arguments, modulo > 0)"]
